@@ -9,7 +9,7 @@ F == Sigs[EnvInt("VFNI", 1)]
 Mode == IOEnv.VMODE
 Api == "fn:" \o F.name
 
-NumP == {NumV(0), NumV(4), NumV(8), NumV(-4), NumV(2), NumV(12), K(TNum, PInf), NumV(-10), NumV(40)}
+NumP == {NumV(0), NumV(4), NumV(8), NumV(-4), NumV(2), NumV(12), K(TNum, PInf), NumV(-10), NumV(40), K(TNum, [lm |-> "i64max"]), K(TNum, [lm |-> "u64maxp"])}
 S(x) == StrV(x)
 StrP == {S(<<>>), S(<<"a">>), S(<<"a", "b">>), S(<<"b", " ", "a">>), S(<<"%", "d">>), S(<<"%", "s", "-", "%", "s">>), S(<<"1">>), S(<<"1", "0">>),
          S(<<"A", "b">>), S(<<" ", "a", " ">>), S(<<"a", ",", "b">>), S(<<"(", "a", ")">>), S(<<"[">>), S(<<"{", "}">>), S(<<"a", "LF">>), S(<<"e", "acute">>),
@@ -28,6 +28,7 @@ Pool(t) ==
     [] t.k = "list" /\ t.e.k = "dynamic" -> UNION {TakeN(Vals(TList(x), W), 4) : x \in {TNum, TStr, TList(TNum), TObj([a |-> TNum]), TBool}}
     [] t.k = "set" /\ t.e.k = "dynamic" -> UNION {TakeN(Vals(TSet(x), W), 4) : x \in {TNum, TStr, TTup(<<TNum, TStr>>)}}
     [] t.k = "list" -> TakeN(Vals(t, W), 8) \cup {SeqV(t, <<S(<<"b">>), S(<<"a">>), S(<<"b">>)>>)}
+    [] t.k = "capsule" /\ t.n = "bytes" -> {K(t, [c |-> "ab"]), K(t, [c |-> ""])}      \* the standard library's byte buffers
     [] OTHER -> {}
 HasPool == \A i \in 1..Len(F.ps) : Pool(F.ps[i].ty) # {}
 NP == Len(F.ps)
@@ -80,9 +81,18 @@ Extra == CASE F.name = "range" -> {<<Inf, MInf, MInf>>, <<MInf, Inf, Inf>>, <<In
            [] F.name = "concat" -> {<<SeqV(TList(TStr), <<>>), SeqV(TList(TNum), <<NumV(4)>>)>>, <<SeqV(TList(TNum), <<NumV(4)>>), SeqV(TList(TStr), <<>>)>>,
                                     <<SeqV(TList(TBool), <<>>), SeqV(TList(TStr), <<S(<<"a">>)>>), SeqV(TList(TNum), <<>>)>>, <<SeqV(TList(TStr), <<>>), SeqV(TList(TNum), <<>>)>>,
                                     <<SeqV(TList(TStr), <<S(<<"a">>)>>), SeqV(TList(TNum), <<NumV(4)>>)>>}
+           [] F.name = "bytesslice" -> {<<K(TCap("bytes"), [c |-> "ab"]), o, n>> : o \in {NumV(0), NumV(4), NumV(8), NumV(12), K(TNum, [lm |-> "i64max"])}, n \in {NumV(0), NumV(4), NumV(12), K(TNum, [lm |-> "i64max"])}}
            [] F.name = "formatlist" -> {<<S(<<"%", "[", "1", "8", "4", "4", "6", "7", "4", "4", "0", "7", "3", "7", "0", "9", "5", "5", "1", "6", "1", "5", "]", "v">>), NumV(4)>>}
            [] OTHER -> {}
-Src == IF Mode = "ref" THEN BaseLists ELSE IF Mode = "call" THEN Extra \cup BaseLists \cup UNION {Injected(a) : a \in InjBase} \cup UNION {NestedUnk(a) : a \in BaseLists} ELSE WBase
+\* argument lists whose members are consumed in step by several iterators (any member weakened, the others must stay aligned)
+L2(x, y) == SeqV(TList(TStr), <<S(<<x>>), S(<<y>>)>>)
+ExtraW == CASE F.name = "formatlist" -> {<<S(<<"%", "s", " ", "%", "s">>), L2("a", "b"), L2("c", "a")>>, <<S(<<"%", "s", "%", "s", "%", "s">>), L2("a", "b"), S(<<"c">>), L2("b", "c")>>,
+                                          <<S(<<"%", "s", "-", "%", "s">>), SeqV(TList(TStr), <<S(<<"a">>), S(<<"b">>), S(<<"c">>)>>), SeqV(TList(TStr), <<S(<<"c">>), S(<<"b">>), S(<<"a">>)>>)>>}
+            [] F.name = "zipmap" -> {<<L2("a", "b"), L2("c", "a")>>}
+            [] F.name = "setproduct" -> {<<L2("a", "b"), L2("c", "a")>>}
+            [] F.name = "concat" -> {<<L2("a", "b"), L2("c", "a")>>}
+            [] OTHER -> {}
+Src == IF Mode = "ref" THEN BaseLists ELSE IF Mode = "call" THEN Extra \cup BaseLists \cup UNION {Injected(a) : a \in InjBase} \cup UNION {NestedUnk(a) : a \in BaseLists} ELSE WBase \cup ExtraW
 \* RandomSubset makes Src differ between evaluations: evaluate it exactly once
 ASSUME LET sq == SetToSeq(Src) IN
        LET out == [i \in 1..Len(sq) |-> Line(sq[i])] IN
